@@ -94,7 +94,8 @@ def model_value(m, o):
         return 0.0
     if k == "bdot":
         z = float(m[1])
-        return -A * z * z * sq / (1 + float(m[2]) * B * sq) + o["bdot"] * mu
+        A, B, bd = o.get("dbA", A), o.get("dbB", B), o.get("dbBdot", o["bdot"])     # database grid values when available
+        return -A * z * z * sq / (1 + float(m[2]) * B * sq) + bd * mu
     if k == "co2":
         c = [float(x) for x in m[1:6]]
         tk = o["tk"]
@@ -127,6 +128,34 @@ def coq_model(m):
 def coq_obs(lg, o):
     q = leaf.coq_Q
     return "(mkObs %s %s %s %s %s %s %s)" % (q(lg), q(o["mu"]), q(o["A"]), q(o["B"]), q(o["bdot"]), q(o["tk"]), q(o["law"]))
+
+
+def attach_llnl(dbinfo, o):
+    """LLNL-type database: bracket of the reported temperature in the database's own grid and the exactly interpolated
+    A, B, Bdot (independent of the engine's a_llnl / b_llnl / bdot_llnl)"""
+    ll = dbinfo.get("llnl")
+    if not ll or not ll.get("temps") or not all(len(ll[k]) == len(ll["temps"]) for k in ("adh", "bdh", "bdot")):
+        return
+    T = ll["temps"]
+    tc = Fraction(o["tc"])
+    if tc < T[0] or tc > T[-1]:
+        return
+    for i in range(len(T) - 1):
+        if T[i] <= tc <= T[i + 1] and T[i] != T[i + 1]:
+            o["br"] = (T[i], T[i + 1], ll["adh"][i], ll["adh"][i + 1], ll["bdh"][i], ll["bdh"][i + 1], ll["bdot"][i], ll["bdot"][i + 1])
+            f = (tc - T[i]) / (T[i + 1] - T[i])
+            o["dbA"], o["dbB"], o["dbBdot"] = (float(ll[k][i] + (ll[k][i + 1] - ll[k][i]) * f) for k in ("adh", "bdh", "bdot"))
+            o["on_grid"] = tc in (T[i], T[i + 1])
+            return
+
+
+def gamma_expr(m, lg, o):
+    """Coq boolean for one species observation"""
+    q = leaf.coq_Q
+    if m[0] == "bdot" and o.get("br"):
+        return "check_gamma_llnl %s %s %s %s %s %s (mkBr %s)" % (coq_model(m), q(lg), q(o["mu"]), q(o["tc"]), q(o["tk"]), q(o["law"]),
+                                                                 " ".join(q(x) for x in o["br"]))
+    return "check_gamma %s %s" % (coq_model(m), coq_obs(lg, o))
 
 
 def coq_bools(prelude, exprs, chunk=350, timeout=900):
@@ -197,7 +226,8 @@ def ia_jobs(ctx, nsol, only_db=None):
             txt, sols = "", []
             for k in range(j0, min(nd, j0 + per_job)):
                 tot = 10 ** ctx.rng.uniform(-4, math.log10(6.0))
-                tc = ctx.rng.choice([0.01, 25.0, 100.0]) if ctx.rng.random() < 0.15 else ctx.rng.uniform(0.5, 100.0)
+                # 15 % exactly on the LLNL grid temperatures (where the interpolation degenerates), the rest strictly between
+                tc = ctx.rng.choice([0.01, 25.0, 60.0, 100.0]) if ctx.rng.random() < 0.15 else ctx.rng.uniform(0.5, 99.5)
                 ph = ctx.rng.uniform(4.0, 10.0) if not iso else ctx.rng.uniform(6.0, 8.5)
                 cat = ctx.rng.choice([c for c in MAJ_CAT if c in prim])
                 an = ctx.rng.choice([a for a in MAJ_AN if a.split("(")[0] in prim])
@@ -256,6 +286,7 @@ def run_ion_association(ctx, gen_leaves, boost=1):
             if not (o["mu"] > 0) or not all(math.isfinite(o[k]) for k in ("mu", "A", "B", "tk", "law")):
                 continue
             nsols += 1
+            attach_llnl(dbs[db], o)
             for name, (lg, mol, la) in o["sp"].items():
                 sp = dbs[db]["species"].get(name)
                 if sp is None:
@@ -303,7 +334,7 @@ def run_ion_association(ctx, gen_leaves, boost=1):
     ctx.rng.shuffle(isorest)
     cap = ctx.n(3000, 24000) * boost
     chosen = (list(flagged[:600]) + first + second + isorest)[:max(cap, len(flagged[:600]) + len(first))]
-    exprs = ["check_gamma %s %s" % (coq_model(ob[2]), coq_obs(ob[3], ob[4])) for ob in chosen]
+    exprs = [gamma_expr(ob[2], ob[3], ob[4]) for ob in chosen]
     vals, errs = coq_bools(PRELUDE, exprs)
     if errs:
         ctx.obligation("verified-checker-run(ion association)", False, errs[0])
@@ -321,6 +352,10 @@ def run_ion_association(ctx, gen_leaves, boost=1):
                 key = LLNL_DAVIES_KEY
                 extra = (" [LLNL-type database: species without -llnl_gamma are given the Davies equation (gflag 1), but gammas() uses a = DH_A, "
                          "which calc_dielectrics never sets when LLNL_AQUEOUS_MODEL_PARAMETERS is present, so log gamma = -0 while DH_A reports a_llnl]")
+            if m[0] == "bdot" and o.get("br"):
+                extra = (" [A, B, Bdot interpolated from the database's LLNL_AQUEOUS_MODEL_PARAMETERS grid at the reported %.6g C (%s): "
+                         "A=%.9g B=%.9g Bdot=%.9g; the engine reports DH_A=%.9g DH_B=%.9g DH_BDOT=%.9g]"
+                         % (o["tc"], "on a grid temperature" if o.get("on_grid") else "strictly between two grid temperatures", o["dbA"], o["dbB"], o["dbBdot"], o["A"], o["B"], o["bdot"]))
             if key in reported:
                 continue
             reported.add(key)
@@ -330,12 +365,18 @@ def run_ion_association(ctx, gen_leaves, boost=1):
                           "reported log gamma of %s (%s, model %s) = %.12g differs from the model value %.12g at MU=%.6g, DH_A=%.6g, DH_B=%.6g (tolerance 1e-9; rejected by the verified checker)"
                           % (name, db, m[0], lg, model_value(m, o), o["mu"], o["A"], o["B"]) + extra,
                           {"kind": "input", "sub": "gamma", "database": db, "input_text": job["text"], "species": name,
-                           "model": [str(x) for x in m], "observed": {"LG": lg, "MU": o["mu"], "DH_A": o["A"], "DH_B": o["B"], "TC": o["tc"]},
+                           "model": [str(x) for x in m], "observed": {"LG": lg, "MU": o["mu"], "DH_A": o["A"], "DH_B": o["B"], "DH_BDOT": o["bdot"], "TC": o["tc"],
+                                                                      "database_A_B_Bdot": [o.get("dbA"), o.get("dbB"), o.get("dbBdot")]},
                            "expected": model_value(m, o)})
-    stats = {"solutions": nsols, "species_observations": len(obs), "sent_to_verified_checker": len(chosen),
+    llsol = [o for o in {id(ob[4]): ob[4] for ob in obs if dbs[ob[0]]["llnl"]}.values()]
+    stats = {"llnl_solutions_on_grid_temperature": sum(1 for o in llsol if o.get("on_grid")),
+             "llnl_solutions_between_grid_temperatures": sum(1 for o in llsol if o.get("br") and not o.get("on_grid")),
+             "llnl_worst_|reported - database| (DH_A, DH_B, DH_BDOT)": [max([abs(o[a] - o[b]) for o in llsol if o.get("br")] or [0.0])
+                                                                     for a, b in (("A", "dbA"), ("B", "dbB"), ("bdot", "dbBdot"))]}
+    stats.update({"solutions": nsols, "species_observations": len(obs), "sent_to_verified_checker": len(chosen),
              "python_flagged": len(flagged), "jobs_with_error": nerr, "unknown_species": sorted(unknown)[:10],
              "distinct_species": len({(ob[0], ob[1]) for ob in obs}),
-             "by_model": {k: sum(1 for ob in chosen if ob[2][0] == k) for k in ("neutral", "davies", "extdh", "one", "bdot", "co2", "wateriso")}}
+             "by_model": {k: sum(1 for ob in chosen if ob[2][0] == k) for k in ("neutral", "davies", "extdh", "one", "bdot", "co2", "wateriso")}})
     ctx.extra.setdefault("input_distribution", {})["ion_association"] = stats
     if unknown:
         ctx.notes.append("species reported by the engine but not found by the independent parser: %s" % ", ".join(sorted(unknown)[:10]))
@@ -560,10 +601,11 @@ def replay(ctx):
     if rp.get("sub") == "gamma":
         d = dbp.parse_db(os.path.join(vlib.DB, db))
         for o in rows:
+            attach_llnl(d, o)
             for name, (lg, mol, la) in o["sp"].items():
                 sp = d["species"].get(name)
                 if sp and (name == rp.get("species") or True):
-                    exprs.append("check_gamma %s %s" % (coq_model(sp["model"]), coq_obs(lg, o)))
+                    exprs.append(gamma_expr(sp["model"], lg, o))
                     info.append((name, sp["model"], lg, o))
         vals, errs = coq_bools(PRELUDE, exprs)
         for (name, m, lg, o), ok in zip(info, vals):
@@ -590,6 +632,61 @@ def replay(ctx):
                 ctx.violation(rp.get("key", "replay"), "replay: %s check rejected at step %d" % (what, k), dict(rp))
                 break
     ctx.rule = "replay of " + ctx.replay
+
+
+# ------------------------------------------------------------------------------------------------ per-theorem failure attribution
+PROOF_FILES = ["GammaProofs", "GammaDeriv", "GammaLLNL", "GammaAW", "PitzerTerms"]   # proofs about generated definitions
+
+
+def attribute_failures(ctx):
+    """When one lemma about a regenerated definition no longer proves, its file does not compile and `make` reports every
+    theorem of Props/Properties_C16.v as failed.  Here the proof files are replayed through `coqtop` (which continues after
+    an error) as modules of ONE stream: a lemma whose proof fails stays undefined, so exactly the theorems that (transitively)
+    use it fail.  Returns ({theorem: bool}, [names of lemmas whose own proof failed]) or None if the replay is unusable.
+    (Same technique as props/c20.py.)"""
+    def strip_imports(txt, defined):
+        def fix(m):
+            sent = m.group(0)
+            mine = [x for x in PROOF_FILES if re.search(r"\bC16\.%s\b" % x, sent)]
+            for x in mine:
+                sent = re.sub(r"\s*\bC16\.%s\b" % x, "", sent)
+            return sent + "".join("\nImport %s." % x for x in mine if x in defined)
+        return re.sub(r"From IPV Require Import[^.]*(?:\.[A-Za-z_][^.]*)*\.(?=\s)", fix, txt)
+    out, defined, lemmas = [], [], []
+    for f in PROOF_FILES:
+        txt = open(os.path.join(vlib.COQ, "C16", f + ".v")).read()
+        txt = re.sub(r"\(\*.*?\*\)", "", txt, flags=re.S)
+        lemmas += [(f, x) for x in re.findall(r"^\s*(?:Lemma|Theorem)\s+([\w']+)", txt, flags=re.M)]
+        txt = strip_imports(txt, defined)
+        txt = re.sub(r"\bQed\.", "Qed. Abort All.", txt)
+        out.append("Module %s.\n%s\nEnd %s.\n" % (f, txt, f))
+        defined.append(f)
+    props = open(os.path.join(vlib.COQ, "Props", "Properties_C16.v")).read()
+    props = re.sub(r"\(\*.*?\*\)", "", props, flags=re.S)
+    thms = re.findall(r"^\s*Theorem\s+([\w']+)", props, flags=re.M)
+    props = strip_imports(props, defined)
+    props = re.sub(r"^\s*Print Assumptions [^\n]*\n", "", props, flags=re.M)
+    props = re.sub(r"\bQed\.", "Qed. Abort All.", props)
+    out.append("Module Props.\n" + props + "\nEnd Props.\n")
+    out.append("Definition attr_marker (n : nat) := n.\n")
+    names = ["Props." + t for t in thms] + ["%s.%s" % fl for fl in lemmas]
+    for i, t in enumerate(names):
+        out.append("Check (attr_marker %d).\nCheck %s.\n" % (i, t))
+    out.append("Check (attr_marker %d).\n" % len(names))
+    with vlib.scratch("attr16") as d:
+        pth = os.path.join(d, "all.v")
+        open(pth, "w").write("\n".join(out))
+        rc, so, se = vlib.sh("coqtop -Q %s IPV -w -all < %s 2>&1" % (vlib.COQ, pth), cwd=d, timeout=900)
+    parts = re.split(r"attr_marker (\d+)\s*\n\s*: nat", so)
+    if len(parts) < 2 * len(names) + 1:
+        return None
+    okmap = {}
+    for i, t in enumerate(names):
+        seg = parts[2 * i + 2]
+        okmap[t] = ("Error" not in seg) and (t.split(".")[-1] in seg)
+    status = {t: okmap["Props." + t] for t in thms}
+    broken = ["%s.%s" % fl for fl in lemmas if not okmap["%s.%s" % fl]]
+    return status, broken
 
 
 def checker_fresh():
@@ -670,6 +767,17 @@ def run(ctx):
     if not box.get("ok"):
         # a broken obligation: name the region and search harder for a concrete failing input (second, larger round)
         localise(ctx)
+        try:
+            att = attribute_failures(ctx)
+        except Exception as ex:
+            att = None
+            ctx.notes.append("per-theorem attribution failed: %r" % ex)
+        if att and not all(att[0].values()):      # only trust the replay if it reproduces a failure
+            st, broken = att
+            ctx.obligations = [(n, (True if st.get(n) else okk) if n in st else okk,
+                                ("" if st.get(n) else det) if n in st else det) for n, okk, det in ctx.obligations]
+            ctx.notes.append("failure attributed by coqtop replay to theorem(s): " + ", ".join(n for n, v in st.items() if not v)
+                             + "; lemma(s) that no longer prove: " + ", ".join(broken))
         if not [v for v in ctx.violations if v[3]]:
             run_ion_association(ctx, {}, 2)
             run_pitzer(ctx, 2)
